@@ -69,6 +69,20 @@ func c17Oracle(sp *Spec, x *X, res *mcrt.Result) (string, string) {
 				return "predecessor-not-retired", fmt.Sprintf("bar %d (with bar %d queued behind it) is drawn in its final state in %d frames", p, s, nterm)
 			}
 		}
+		if strings.Contains(sp.Name, "-cancel") {
+			// an external cancel may land before the predecessor has left; but once the predecessor's second
+			// final-state frame is out (the flush that hands its place over), the closing renders must show the successor
+			nterm := 0
+			for _, f := range frames {
+				if r := f.Row(p); r != nil && r.Flags != "R" {
+					nterm++
+				}
+			}
+			if sp.Refresh == "auto" && nterm >= 2 && firstS < 0 && x.EventCount("queue:late-successor") == 0 {
+				return "successor-never-displayed", fmt.Sprintf("bar %d left after %d final-state frames, bar %d (queued after it) does not appear in any of the %d frames", p, nterm, s, len(frames))
+			}
+			continue
+		}
 		if sp.Refresh == "auto" && firstS < 0 {
 			return "successor-never-displayed", fmt.Sprintf("bar %d (queued after %d) does not appear in any of the %d frames", s, p, len(frames))
 		}
@@ -152,6 +166,21 @@ func c17Programs(tier string) []*Spec {
 		sp.Main = []Op{{K: "add", B: 0}, {K: "add", B: 1}, {K: "add", B: 2}, {K: "add", B: 3}}
 		sp.Clients = [][]Op{fin(0, 2), fin(1, 2), fin(2, 2), fin(3, 1)}
 		out = append(out, sp)
+		// an external cancel anywhere (the thread that issues it is placed by the explorer), in particular between the
+		// predecessor's two closing frames: the closing renders go on until the successor has been shown
+		sp = base("wf-cancel")
+		sp.Main = []Op{{K: "add", B: 0}, {K: "add", B: 1}, {K: "add", B: 2}}
+		sp.Clients = [][]Op{fin(0, 2), {{K: "cancel"}}}
+		out = append(out, sp)
+		// the predecessor is shown, then dropped with Abort(true): the successor follows in the very next frame
+		sp = base("wf-abortdrop-shown")
+		sp.Main = []Op{{K: "add", B: 0}, {K: "add", B: 1}, {K: "add", B: 2}}
+		if rf == "manual" {
+			sp.Clients = [][]Op{{{K: "refresh"}, {K: "abort", B: 0, F: true}, {K: "refresh"}, {K: "refresh"}, {K: "refresh"}, {K: "refresh"}}, fin(1, 2), append([]Op{{K: "barwait", B: 0}}, fin(2, 2)...)}
+		} else {
+			sp.Clients = [][]Op{{{K: "sleep", N: 150}, {K: "abort", B: 0, F: true}}, fin(1, 2), append([]Op{{K: "barwait", B: 0}}, fin(2, 2)...)}
+		}
+		out = append(out, sp)
 		// predecessor aborted / removed on complete / pop mode
 		for _, v := range []string{"abort", "abortdrop", "rm", "pop"} {
 			sp = base("wf-" + v)
@@ -189,6 +218,9 @@ func init() {
 				b := bound
 				if strings.HasPrefix(sp.Name, "c17-two") || strings.HasPrefix(sp.Name, "c17-late") {
 					b = 1 // the programs of the two recorded findings: every execution of theirs runs to the horizon
+				}
+				if strings.Contains(sp.Name, "-cancel") {
+					b = bound + 1 // the cancelling thread's placement costs a deviation by itself
 				}
 				its := specItemsMixed("C17", sp, b, 1, allStrats, nil, c17Oracle)
 				for i := range its {
